@@ -261,6 +261,23 @@ func cmdCheck(args []string) int {
 		}
 	}
 	dischargeAll(todo, timeout, seed, outDir, 8)
+	// a proof obligation that only ran out of time gets a second, unhurried attempt (two at a time, three times the
+	// budget): on a loaded machine the first round competes with up to 24 solver processes, and a timeout there must
+	// not be reported as a violation of code that has not changed
+	var again []*Obligation
+	for _, ob := range todo {
+		if ob.Result == "timeout" && !ob.ExpectSat {
+			ob.Result = ""
+			again = append(again, ob)
+		}
+	}
+	if len(again) > 0 && len(again) <= 12 {
+		dischargeAll(again, 3*timeout, seed, outDir, 2)
+	} else {
+		for _, ob := range again {
+			ob.Result = "timeout"
+		}
+	}
 	tSolve := time.Since(t0).Seconds() - tLoad - tGen
 
 	// known findings
